@@ -80,6 +80,7 @@ type consumer struct {
 	name        string
 	families    []string
 	embeddedKey bool     // the protocol carries the verification key in the token: the private-key clause applies
+	algFromKey  bool     // the algorithm is derived from the resolved key, the JWS header is opaque (JSON-LD proofs: LDProof.Verify)
 	bytesAreID  bool     // the received bytes ARE the object's identity (DAG: reference = SHA-256 of the bytes): no re-encoding is semantically identical
 	allowed     []string // algorithm labels the node documents as allowed for this consumer
 	// setup builds the valid original of the family and everything needed to run variants
@@ -369,7 +370,7 @@ func consumers() []consumer {
 		}, keyFor: didKey})
 
 	// --- JSON-LD proof (detached JWS inside proof.jws of a credential), through the verifier down to LDProof.Verify
-	list = append(list, consumer{name: "ld-proof", families: enum.AllFamilies, allowed: cat(es, ps, []string{"EdDSA"}),
+	list = append(list, consumer{name: "ld-proof", families: enum.AllFamilies, algFromKey: true, allowed: cat(es, ps, []string{"EdDSA"}),
 		setup: func(e *env, c *caseCtx) enum.JOSEInput {
 			c.signer.Kid, c.foreign.Kid = didJWK(c.signer.Public())+"#0", didJWK(c.foreign.Public())+"#0"
 			doc, tbs := ldVC(e, c.signer, c.signer.Kid, now)
@@ -561,7 +562,7 @@ func TestVerifC17(t *testing.T) {
 			if err != nil {
 				t.Fatal(err)
 			}
-			jc := enum.JOSEConsumer{Name: cons.name, EmbeddedKey: cons.embeddedKey, BytesAreID: cons.bytesAreID, Allowed: cons.allowed,
+			jc := enum.JOSEConsumer{Name: cons.name, EmbeddedKey: cons.embeddedKey, BytesAreID: cons.bytesAreID, AlgFromKey: cons.algFromKey, Allowed: cons.allowed,
 				KeyFor: func(f enum.JOSEFacts) crypto.PublicKey { return cons.keyFor(c, f) }}
 			if vd := enum.JOSEReference(jc, variants[0], c.signingPayload); !vd.Strict {
 				t.Fatalf("harness: reference predicate refuses the valid original of %s/%s (%s)", cons.name, fam, vd.Clause)
